@@ -13,7 +13,7 @@ From Verif Require Import lib.Int64 model.RemoteRead.
 Import ListNotations.
 Open Scope Z_scope.
 
-Inductive obs := ObsOk (l : list series) | ObsErrLimit | ObsErrOther.
+Inductive obs := ObsOk (l : list series) | ObsErrLimit | ObsErrOther | ObsSkip.
 
 Record case := mkCase {
   c_id : Z;
@@ -26,7 +26,13 @@ Record case := mkCase {
   c_chunks : list cseries;
   c_sampled : obs;
   c_frames : list frame;
-  c_chunked : obs
+  c_chunked : obs;
+  (* remote.NewSampleAndChunkQueryableClient(client, ext, ...).Querier(mint,maxt).Select(...) with
+     the same external labels as the serving side; ObsSkip when not run (an external label
+     name that also occurs in stored series) *)
+  c_qchunked : bool;           (* response type of the client underneath *)
+  c_mnames : list str;         (* label names of the user's matchers *)
+  c_querier : obs
 }.
 
 Definition chunk_eqb (a b : chunk) : bool :=
@@ -66,7 +72,20 @@ Definition agree_chunked (c : case) : bool :=
   | _ => false
   end.
 
-Definition agree (c : case) : bool := agree_sampled c && agree_frames c && agree_chunked c.
+Definition agree_querier (c : case) : bool :=
+  match c_querier c with
+  | ObsSkip => true
+  | o =>
+      match querier_path (c_qchunked c) (c_limit c) (c_maxbytes c) (c_ext c) (c_mnames c) (c_sort c)
+                         (c_mint c) (c_maxt c) (c_direct c) (c_chunks c), o with
+      | Ok l, ObsOk l' => serieslist_eqb l l'
+      | ErrLimit, ObsErrLimit => true
+      | _, _ => false
+      end
+  end.
+
+Definition agree (c : case) : bool :=
+  agree_sampled c && agree_frames c && agree_chunked c && agree_querier c.
 
 (* the property on the implementation's own output: both response types return exactly the
    series of the direct query (external labels of the serving side attached), with exactly the
@@ -100,7 +119,21 @@ Definition holds_chunked (c : case) : bool :=
   | _ => false
   end.
 
-Definition holds (c : case) : bool := holds_sampled c && holds_chunked c.
+(* through the querier the external labels are stripped again: exactly the direct result *)
+Definition holds_querier (c : case) : bool :=
+  match c_querier c with
+  | ObsSkip => true
+  | o =>
+      if negb (c_qchunked c) && (0 <? c_limit c) && (c_limit c <? total_samples (c_direct c)) then
+        match o with ObsErrLimit => true | _ => false end
+      else
+        match o with
+        | ObsOk l => serieslist_eqb (canon l) (canon (c_direct c))
+        | _ => false
+        end
+  end.
+
+Definition holds (c : case) : bool := holds_sampled c && holds_chunked c && holds_querier c.
 
 Definition mismatches (cs : list case) : list Z := map c_id (filter (fun c => negb (agree c)) cs).
 Definition failing_holds (cs : list case) : list Z := map c_id (filter (fun c => negb (holds c)) cs).
